@@ -104,6 +104,9 @@ def main():
     res['twins'] = {}
     if h.twin and not res['failures']:
         for goal in (None,) + tuple(h.goals):
+            if goal is None and res['passed'] > 0:
+                res['twins']['end'] = 'witnessed'      # some path ran the whole body to its end
+                continue
             if goal is not None and goal in res['goals']:
                 res['twins'][goal] = 'witnessed'
                 continue
